@@ -314,14 +314,3 @@ contract('odml/base.py::Sectionable.document.getter',
          decreases={0: 'depth(par)'},
          props=('C03', 'C14'),
          note='an object\'s document is the root of its parent chain; the walk terminates')
-
-contract('odml/base.py::Sectionable.get_path',
-         types={'self': ('BaseSection', 'BaseDocument')}, pure=True,
-         requires='True',
-         ensures=['is_str(result)', 'implies(isDoc(self), result == "/")'],
-         raises={},
-         invariants={0: 'node is self or anc(self, node)'},
-         loop_var_types={'node': ('BaseSection', 'BaseDocument')},
-         decreases={0: 'depth(node)'},
-         props=('C03', 'C14'),
-         note='the absolute path is computed by a terminating walk up the parent chain')
